@@ -121,6 +121,11 @@ def run_batch(sh, batch, syntax):
                     kind = 'meaning'
                     if v is not None and strip_imm(t) == strip_imm(rt):
                         kind = 'imm-trunc'
+                    if x86ref.sort_unscaled_pair(t, True) == x86ref.sort_unscaled_pair(rt, True):
+                        # one mechanism whatever the mnemonic: an unscaled register pair containing ebp is encoded with the roles exchanged
+                        sh.violation('%s/base-index-roles-exchanged-with-ebp(default segment ss vs ds)' % syntax,
+                                     '%r means "%s" (GNU as: %s) but candidate %s means "%s"' % (line, rt, g.hex(), b.hex(), t), wit)
+                        break
                     sh.violation('%s/%s/w%d/%s' % (keybase, kind, w, icls), '%r means "%s" (GNU as: %s) but candidate %s means "%s"' % (line, rt, g.hex(), b.hex(), t), wit)
                     break
         elif refuses and v is not None and (g or fits_err):
